@@ -847,7 +847,7 @@ pub fn generate(rng: &mut Rng, n: usize, tier: &str) -> Vec<Value> {
     for (s, which) in fixed.iter() {
         v.push(json!({"kind":"prod","which":which,"input":jbytes(s),"parts":all_cuts(s.len(), s.len() <= 14)}));
     }
-    let thorough = tier == "thorough";
+    let _ = tier;
     while v.len() < n {
         match rng.below(20) {
             0..=7 => v.push(gen_case(rng)),
@@ -869,7 +869,7 @@ pub fn generate(rng: &mut Rng, n: usize, tier: &str) -> Vec<Value> {
                 for _ in 0..rng.below(8) {
                     match rng.below(5) {
                         0 => s.push(0x80 + rng.below(0x40) as u8),
-                        1 => s.push(0xc2 + rng.below(0x1e) as u8),
+                        1 => s.push(*rng.pick(&[0xc0u8, 0xc1, 0xc2, 0xdf, 0xe0, 0xe1, 0xec, 0xed, 0xee, 0xef, 0xf0, 0xf1, 0xf3, 0xf4, 0xf5, 0xf7, 0xf8, 0xfb, 0xfc, 0xfe, 0xff])),
                         _ => s.extend(utf8_char(rng)),
                     }
                 }
